@@ -1,5 +1,20 @@
 import Ivg.Lemmas.SpecDiv
 import Ivg.Lemmas.Quantize
+/-!
+# Zero-to-one numbers: the short forms are accurate to one unit in the last place
+
+`encodeZeroToOne f` uses a 1- or 2-byte form only if `g = f*15120` (one float32 rounding) is exactly an
+integer `u < 15120`; the decoder returns `float32(u)/15120` or `float32(u/126)/120` (one more rounding).
+`z2o_bound`: the decoded float and `f` are `==` (both zeros) or have the same sign and bit patterns at
+distance ≤ 1 — analytically, without tables:
+
+* `mul15120_inv`: if the product is a finite float ≥ 1 then `f` is a positive normal number and the
+  product's mantissa `q` satisfies `|F·N − q·2^sh| ≤ 2^(sh−1)` (`rne_err`);
+* `div_bits` (on top of `SpecDiv.lean`: float32 division of integers is correctly rounded): the
+  quotient's mantissa `q'` satisfies `|T − q'·d·2^s| ≤ d·2^(s−1)` (`rq_err`);
+* `core1`/`core2`: in each of the finitely many exponent configurations the two half-unit bounds force
+  the bit patterns to within 1 (linear arithmetic).
+-/
 namespace Ivg.Z2O
 open Ivg Num Codec
 
@@ -352,5 +367,389 @@ theorem div_bits (u dd k c bl : Nat) (hu0 : 0 < u) (hd0 : 0 < dd) (hd : dd < 167
   rw [if_neg hnov]
   simp only [Bool.false_eq_true, if_false, Nat.zero_add]
   rw [hnb _ (by omega)]
+
+/-! ## zero products -/
+
+theorem roundMag32_le_inf (n : Nat) (e : Int) : roundMag .f32 n e ≤ 2139095040 := by
+  obtain ⟨fe, hfe⟩ : ∃ fe : Int, fe = if e + (bitLen n : Int) - 24 < -149 then -149
+      else e + (bitLen n : Int) - 24 := ⟨_, rfl⟩
+  obtain ⟨q, _, hr⟩ := roundMag32_q n e fe hfe
+  rw [hr]
+  by_cases h : (fe + 149).toNat * 8388608 + q ≥ 2139095040
+  · rw [if_pos h]; omega
+  · rw [if_neg h]; omega
+
+/-- a nonzero finite float times 15120 is not zero (no underflow to zero) -/
+theorem roundMag_mulN_pos (m : Nat) (e : Int) (hm : 0 < m) (he : -149 ≤ e) :
+    0 < roundMag .f32 (m * 15482880) (e + -10) := by
+  have hn : 15482880 ≤ m * 15482880 := Nat.le_mul_of_pos_left _ hm
+  have hn0 : 0 < m * 15482880 := by omega
+  obtain ⟨hb1, hb2⟩ := SpecL.bitLen_bounds hn0
+  generalize m * 15482880 = n at *
+  obtain ⟨fe, hfe⟩ : ∃ fe : Int, fe = if e + -10 + (bitLen n : Int) - 24 < -149 then -149
+      else e + -10 + (bitLen n : Int) - 24 := ⟨_, rfl⟩
+  obtain ⟨q, hq, hr⟩ := roundMag32_q n (e + -10) fe hfe
+  rw [hr]
+  have hq1 : 1 ≤ q := by
+    rw [hq]
+    by_cases hle : fe ≤ e + -10
+    · rw [if_pos hle]
+      exact Nat.mul_pos hn0 (Nat.two_pow_pos _)
+    · rw [if_neg hle]
+      have hsh : 2^(fe - (e + -10)).toNat ≤ n := by
+        by_cases hcl : e + -10 + (bitLen n : Int) - 24 < -149
+        · rw [if_pos hcl] at hfe
+          have : (fe - (e + -10)).toNat ≤ 10 := by omega
+          have := Nat.pow_le_pow_right (n := 2) (by omega) this
+          have c : (2:Nat)^10 = 1024 := by decide
+          rw [c] at this; clear c
+          omega
+        · rw [if_neg hcl] at hfe
+          have : (fe - (e + -10)).toNat ≤ bitLen n - 1 := by omega
+          have := Nat.pow_le_pow_right (n := 2) (by omega) this
+          omega
+      have : 1 ≤ n / 2^(fe - (e + -10)).toNat := (Nat.le_div_iff_mul_le (Nat.two_pow_pos _)).2 (by omega)
+      split <;> omega
+  clear hq
+  split <;> omega
+
+/-- `Inf`/`NaN` times 15120 is `Inf`/`NaN` -/
+theorem mul15120_nonfinite (c : Nat) (hc : unpack .f32 c = .fin false 15482880 (-10))
+    (sg mt : Nat) (hs : sg < 2) (hmt : mt < 8388608) :
+    Num.mul .f32 (sg * 2147483648 + 255 * 8388608 + mt) c / 8388608 % 256 = 255 ∧
+      Num.mul .f32 (sg * 2147483648 + 255 * 8388608 + mt) c < 4294967296 := by
+  have hu := unpack_f32 (sg * 2147483648 + 255 * 8388608 + mt)
+  have h1 : (sg * 2147483648 + 255 * 8388608 + mt) / 8388608 % 256 = 255 := by omega
+  have h2 : (sg * 2147483648 + 255 * 8388608 + mt) % 8388608 = mt := by omega
+  rw [h1, h2, if_pos rfl] at hu
+  by_cases hm : mt = 0
+  · rw [if_pos hm] at hu
+    rw [mulc_inf_fin _ _ _ _ _ _ _ hu hc]
+    have : ((15482880 : Nat) == 0) = false := rfl
+    rw [this]
+    simp only [Bool.false_eq_true, if_false, withSign32, infBits_f32]
+    split <;> omega
+  · rw [if_neg hm] at hu
+    rw [mulc_nan_left _ _ _ _ hu]
+    have hn : Num.isNaN .f32 (sg * 2147483648 + 255 * 8388608 + mt) = true := by
+      simp only [Num.isNaN, signBit_f32, infBits_f32, decide_eq_true_eq]; omega
+    simp only [propNaN, hn, if_true, quiet, Fmt.quietBit, mbits_f32]
+    have c22 : (2:Nat)^(23-1) = 4194304 := by decide
+    simp only [c22]; clear c22
+    split
+    · omega
+    · rename_i hq
+      simp only [beq_iff_eq] at hq
+      omega
+
+/-- if `f * 15120` is a zero then `f` is a zero -/
+theorem mul15120_zero_inv (c : Nat) (hc : unpack .f32 c = .fin false 15482880 (-10)) (f : F32)
+    (hz : Num.mul .f32 f.nb c % 2147483648 = 0) : f.nb % 2147483648 = 0 := by
+  obtain ⟨hf, hs, hex, hmt⟩ := nb_fields f
+  rw [hf] at hz ⊢
+  generalize sgn f = sg at *
+  generalize expo f = ex at *
+  generalize mant f = mt at *
+  by_cases hex255 : ex = 255
+  · exfalso
+    subst hex255
+    obtain ⟨h1, h2⟩ := mul15120_nonfinite c hc sg mt hs hmt
+    omega
+  · by_cases hz0 : ex = 0 ∧ mt = 0
+    · omega
+    · exfalso
+      -- finite nonzero: the product is nonzero
+      have hfin : ∃ s m e, unpack .f32 (sg * 2147483648 + ex * 8388608 + mt) = .fin s m e ∧ 0 < m ∧
+          -149 ≤ e := by
+        by_cases hex0 : ex = 0
+        · subst hex0
+          have hu := unpack_f32 (sg * 2147483648 + 0 * 8388608 + mt)
+          have h1 : (sg * 2147483648 + 0 * 8388608 + mt) / 8388608 % 256 = 0 := by omega
+          have h2 : (sg * 2147483648 + 0 * 8388608 + mt) % 8388608 = mt := by omega
+          rw [h1, h2, if_neg (by omega), if_pos rfl] at hu
+          exact ⟨_, _, _, hu, by omega, by omega⟩
+        · exact ⟨_, _, _, unpack_normal sg ex mt hs (by omega) (by omega) hmt, by omega, by omega⟩
+      obtain ⟨s, m, e, hu, hm, he⟩ := hfin
+      rw [mulc_fin c hc _ _ _ _ hu hm] at hz
+      have hpos := roundMag_mulN_pos m e hm he
+      have hle := roundMag32_le_inf (m * 15482880) (e + -10)
+      generalize roundMag .f32 (m * 15482880) (e + -10) = RM at *
+      split at hz <;> omega
+
+/-! ## assembling the bound -/
+
+theorem mul15120_lt (c : Nat) (hc : unpack .f32 c = .fin false 15482880 (-10)) (f : F32) :
+    Num.mul .f32 f.nb c < 4294967296 := by
+  obtain ⟨hf, hs, hex, hmt⟩ := nb_fields f
+  rw [hf]
+  generalize sgn f = sg at *
+  generalize expo f = ex at *
+  generalize mant f = mt at *
+  by_cases hex255 : ex = 255
+  · subst hex255; exact (mul15120_nonfinite c hc sg mt hs hmt).2
+  · have hfin : ∃ s m e, unpack .f32 (sg * 2147483648 + ex * 8388608 + mt) = .fin s m e := by
+      by_cases hex0 : ex = 0
+      · subst hex0
+        have hu := unpack_f32 (sg * 2147483648 + 0 * 8388608 + mt)
+        have h1 : (sg * 2147483648 + 0 * 8388608 + mt) / 8388608 % 256 = 0 := by omega
+        rw [h1, if_neg (by omega), if_pos rfl] at hu
+        exact ⟨_, _, _, hu⟩
+      · exact ⟨_, _, _, unpack_normal sg ex mt hs (by omega) (by omega) hmt⟩
+    obtain ⟨s, m, e, hu⟩ := hfin
+    by_cases hm : m = 0
+    · subst hm
+      rw [mul_fin_fin _ _ _ _ _ _ _ _ _ hu hc, Nat.zero_mul, Quant.roundPack_zero, withSign32]
+      split <;> omega
+    · rw [mulc_fin c hc _ _ _ _ hu (by omega)]
+      have := roundMag32_le_inf (m * 15482880) (e + -10)
+      split <;> omega
+
+/-- normalisations of `u = 126·u'` and `u'` differ by 6 or 7 binary places -/
+theorem norm_126 (u' k k' : Nat) (hu0 : 0 < u')
+    (hU1 : 8388608 ≤ 126 * u' * 2^k) (hU2 : 126 * u' * 2^k < 16777216)
+    (hU1' : 8388608 ≤ u' * 2^k') (hU2' : u' * 2^k' < 16777216) :
+    (k' = k + 6 ∧ 126 * u' * 2^k * 64 = 126 * (u' * 2^k')) ∨
+    (k' = k + 7 ∧ 126 * u' * 2^k * 128 = 126 * (u' * 2^k')) := by
+  have hbU : bitLen (126 * u' * 2^k) = 24 := bitLen_eq (k := 23) hU1 hU2
+  have hbU' : bitLen (u' * 2^k') = 24 := bitLen_eq (k := 23) hU1' hU2'
+  rw [bitLen_mul_pow _ _ (by omega)] at hbU
+  rw [bitLen_mul_pow _ _ hu0] at hbU'
+  obtain ⟨hb1, hb2⟩ := SpecL.bitLen_bounds hu0
+  -- bitLen (126 u') is bitLen u' + 6 or + 7
+  have hlo : bitLen u' + 6 ≤ bitLen (126 * u') := by
+    have h1 : 2^(bitLen u' - 1 + 6) ≤ 126 * u' := by
+      rw [Nat.pow_add]; have : (2:Nat)^6 = 64 := by decide
+      rw [this]; omega
+    have := SpecL.bitLen_ge h1
+    have : 1 ≤ bitLen u' := by
+      rcases Nat.eq_zero_or_pos (bitLen u') with h | h
+      · rw [h] at hb2; simp at hb2; omega
+      · exact h
+    omega
+  have hhi : bitLen (126 * u') ≤ bitLen u' + 7 := by
+    apply Quant.bitLen_le_of_lt
+    rw [Nat.pow_add]; have : (2:Nat)^7 = 128 := by decide
+    rw [this]; omega
+  have hkk : k' = k + 6 ∨ k' = k + 7 := by omega
+  rcases hkk with h | h
+  · left; refine ⟨h, ?_⟩
+    rw [h, Nat.pow_add]; have : (2:Nat)^6 = 64 := by decide
+    rw [this]
+    generalize 2^k = P
+    rw [Nat.mul_assoc 126, Nat.mul_assoc 126, ← Nat.mul_assoc u']
+  · right; refine ⟨h, ?_⟩
+    rw [h, Nat.pow_add]; have : (2:Nat)^7 = 128 := by decide
+    rw [this]
+    generalize 2^k = P
+    rw [Nat.mul_assoc 126, Nat.mul_assoc 126, ← Nat.mul_assoc u']
+
+
+theorem decodeR (R U qf ex k s11 : Nat) (hU1 : 8388608 ≤ U) (hU2 : U < 16777216)
+    (hq1 : 8388608 ≤ qf) (hq2 : qf ≤ 16777216) (hk : k ≤ 23)
+    (hR : R = (150 - k) * 8388608 + (U - 8388608)) (hR' : R = (ex + s11) * 8388608 + qf) :
+    (qf = U ∧ ex + s11 + k = 149) ∨ (qf = 16777216 ∧ U = 8388608 ∧ ex + s11 + 1 + k = 149) := by
+  omega
+
+/-- the information `mul15120_inv` gives about `f`, with the carry case made explicit -/
+def FSide (F U ex k : Nat) : Prop :=
+  (ex + 12 + k = 149 ∧ 2 * (U * 8388608) ≤ 2 * (F * 15482880) + 8388608 ∧
+      2 * (F * 15482880) ≤ 2 * (U * 8388608) + 8388608) ∨
+  (ex + 13 + k = 149 ∧ U = 8388608 ∧ 2 * (16777216 * 8388608) ≤ 2 * (F * 15482880) + 8388608 ∧
+      2 * (F * 15482880) ≤ 2 * (16777216 * 8388608) + 8388608) ∨
+  (ex + 13 + k = 149 ∧ 2 * (U * 16777216) ≤ 2 * (F * 15482880) + 16777216 ∧
+      2 * (F * 15482880) ≤ 2 * (U * 16777216) + 16777216) ∨
+  (ex + 14 + k = 149 ∧ U = 8388608 ∧ 2 * (16777216 * 16777216) ≤ 2 * (F * 15482880) + 16777216 ∧
+      2 * (F * 15482880) ≤ 2 * (16777216 * 16777216) + 16777216)
+
+/-- 2-byte form: `f` and `fl(u/15120)` are at most one unit in the last place apart -/
+theorem core2 (F U qd ex k fnb dnb bl : Nat) (hF1 : 8388608 ≤ F) (hF2 : F < 16777216)
+    (hU1 : 8388608 ≤ U) (hU2 : U < 16777216) (hk : k ≤ 23)
+    (hqd1 : 8388608 ≤ qd) (hqd2 : qd ≤ 16777216)
+    (hf : fnb = ex * 8388608 + (F - 8388608)) (hfs : FSide F U ex k)
+    (hbl : bl = 40 ∨ bl = 41)
+    (hd1 : dnb = (125 + bl - 30 - k) * 8388608 + qd)
+    (hd2 : 2 * (qd * (15120 * 2^(bl - 24))) ≤ 2 * (U * 1073741824) + 15120 * 2^(bl - 24))
+    (hd3 : 2 * (U * 1073741824) ≤ 2 * (qd * (15120 * 2^(bl - 24))) + 15120 * 2^(bl - 24)) :
+    dnb ≤ fnb + 1 ∧ fnb ≤ dnb + 1 := by
+  rcases hbl with rfl | rfl
+  · have c : 15120 * 2^(40 - 24) = 990904320 := by decide
+    rw [c] at hd2 hd3; clear c
+    rcases hfs with h | h | h | h <;> omega
+  · have c : 15120 * 2^(41 - 24) = 1981808640 := by decide
+    rw [c] at hd2 hd3; clear c
+    rcases hfs with h | h | h | h <;> omega
+
+/-- 1-byte form: `f` and `fl((u/126)/120)` are at most one unit in the last place apart -/
+theorem core1 (F U U' qd ex k k' fnb dnb bl : Nat) (hF1 : 8388608 ≤ F) (hF2 : F < 16777216)
+    (hU1 : 8388608 ≤ U) (hU2 : U < 16777216) (hU1' : 8388608 ≤ U') (hU2' : U' < 16777216)
+    (hk : k ≤ 23) (hk' : k' ≤ 23) (hqd1 : 8388608 ≤ qd) (hqd2 : qd ≤ 16777216)
+    (hf : fnb = ex * 8388608 + (F - 8388608)) (hfs : FSide F U ex k)
+    (hlink : (k' = k + 6 ∧ U * 64 = 126 * U') ∨ (k' = k + 7 ∧ U * 128 = 126 * U'))
+    (hbl : bl = 40 ∨ bl = 41)
+    (hd1 : dnb = (125 + bl - 23 - k') * 8388608 + qd)
+    (hd2 : 2 * (qd * (120 * 2^(bl - 24))) ≤ 2 * (U' * 8388608) + 120 * 2^(bl - 24))
+    (hd3 : 2 * (U' * 8388608) ≤ 2 * (qd * (120 * 2^(bl - 24))) + 120 * 2^(bl - 24)) :
+    dnb ≤ fnb + 1 ∧ fnb ≤ dnb + 1 := by
+  rcases hbl with rfl | rfl
+  · have c : 120 * 2^(40 - 24) = 7864320 := by decide
+    rw [c] at hd2 hd3; clear c
+    rcases hlink with hl | hl <;> rcases hfs with h | h | h | h <;> omega
+  · have c : 120 * 2^(41 - 24) = 15728640 := by decide
+    rw [c] at hd2 hd3; clear c
+    rcases hlink with hl | hl <;> rcases hfs with h | h | h | h <;> omega
+
+
+theorem nb_of_pos (f : F32) (h0 : sgn f = 0) :
+    f.nb = expo f * 8388608 + (mant f + 8388608 - 8388608) := by
+  obtain ⟨hfld, _, _, _⟩ := nb_fields f
+  rw [h0, Nat.zero_mul, Nat.zero_add] at hfld; omega
+
+theorem bitLen_15120 : bitLen 15120 = 14 := bitLen_eq (k := 13) (by decide) (by decide)
+theorem bitLen_120 : bitLen 120 = 7 := bitLen_eq (k := 6) (by decide) (by decide)
+theorem div120_zero : F32.ofInt ((0 / 126 : Nat) : Int) / F32.ofInt 120 = ⟨0⟩ := by decide
+
+/-- **zero-to-one short forms are within one unit in the last place**: whenever `encodeZeroToOne`
+    picks the 1- or 2-byte form, the decoded float is `==` to the input (both zeros) or has the same
+    sign and a bit pattern at distance at most 1 -/
+theorem z2o_bound (f : F32) (h : (Enc.encodeZeroToOne f).length ≠ 4) :
+    (rtZ2O f).feq f = true ∨
+    (sgn (rtZ2O f) = 0 ∧ sgn f = 0 ∧ (rtZ2O f).nb ≤ f.nb + 1 ∧ f.nb ≤ (rtZ2O f).nb + 1) := by
+  obtain ⟨hfeq, hu⟩ := encodeZeroToOne_short f h
+  have hrt : rtZ2O f =
+      if (f * F32.ofInt 15120).toUInt32.toNat % 126 = 0
+      then F32.ofInt (((f * F32.ofInt 15120).toUInt32.toNat / 126 : Nat) : Int) / F32.ofInt 120
+      else F32.ofInt ((f * F32.ofInt 15120).toUInt32.toNat : Int) / F32.ofInt 15120 := by
+    simp only [rtZ2O]; rw [if_pos ⟨hfeq, hu⟩]
+  rw [hrt]
+  obtain ⟨u, hudef⟩ : ∃ u, u = (f * F32.ofInt 15120).toUInt32.toNat := ⟨_, rfl⟩
+  rw [← hudef] at hfeq hu ⊢
+  clear hrt hudef
+  have hlt := mul15120_lt (F32.ofInt 15120).nb unpack_15120 f
+  have hgnb : (f * F32.ofInt 15120).nb = Num.mul .f32 f.nb (F32.ofInt 15120).nb := by
+    rw [mul_nb]; omega
+  obtain ⟨_, _, hcase⟩ := (feq_iff _ _).1 hfeq
+  -- the zero case
+  have hZ : (f * F32.ofInt 15120).nb % 2147483648 = 0 → (F32.ofInt (u : Int)).nb % 2147483648 = 0 →
+      (if u % 126 = 0 then F32.ofInt ((u / 126 : Nat) : Int) / F32.ofInt 120
+        else F32.ofInt (u : Int) / F32.ofInt 15120).feq f = true := by
+    intro hz hzu
+    rw [hgnb] at hz
+    have hfz := mul15120_zero_inv _ unpack_15120 f hz
+    have hu0 : (u : Int) = 0 := (ofInt_zero_iff (u : Int) (by omega)).1 hzu
+    have : u = 0 := by omega
+    subst this
+    rw [if_pos (by decide), div120_zero]
+    rcases zero_cases f hfz with rfl | rfl <;> decide
+  by_cases hz : (f * F32.ofInt 15120).nb % 2147483648 = 0
+  · left
+    rcases hcase with heq | ⟨hz1, _⟩
+    · exact hZ hz (by rw [heq]; exact hz)
+    · exact hZ hz hz1
+  · right
+    have heq : F32.ofInt (u : Int) = f * F32.ofInt 15120 := by
+      rcases hcase with heq | ⟨_, hz2⟩
+      · exact heq
+      · exact absurd hz2 hz
+    have hu0 : u ≠ 0 := by
+      intro h0; subst h0
+      apply hz; rw [← heq]; decide
+    obtain ⟨k, hk, hU1, hU2, hnb, _⟩ := ofInt_small (u : Int) (by omega) (by omega)
+    simp only [Int.natAbs_natCast] at hU1 hU2 hnb
+    have hneg : ¬ ((u : Int) < 0) := by omega
+    rw [if_neg hneg] at hnb
+    -- f side
+    have hR : Num.mul .f32 f.nb (F32.ofInt 15120).nb = (F32.ofInt (u : Int)).nb := by
+      rw [← hgnb, heq]
+    have hmt := (nb_fields f).2.2.2
+    have hfnb0 := nb_of_pos f
+    have hR1 : 1065353216 ≤ (F32.ofInt (u : Int)).nb := by rw [hnb]; omega
+    have hR2 : (F32.ofInt (u : Int)).nb < 2139095040 := by rw [hnb]; omega
+    obtain ⟨hsf, hex1, hex2, qf, hqf1, hqf2, hsh⟩ := mul15120_inv _ unpack_15120 f _ hR hR1 hR2
+    have hfnb := hfnb0 hsf
+    have hRform : (F32.ofInt (u : Int)).nb = (150 - k) * 8388608 + (u * 2^k - 8388608) := by
+      rw [hnb]; omega
+    rw [hRform] at hsh
+    clear hfnb0 hR1 hR2
+    obtain ⟨F, hF⟩ : ∃ F, F = mant f + 8388608 := ⟨_, rfl⟩
+    obtain ⟨U, hU'⟩ : ∃ U, U = u * 2^k := ⟨_, rfl⟩
+    obtain ⟨ex, hexd⟩ : ∃ ex, ex = expo f := ⟨_, rfl⟩
+    rw [← hF, ← hU', ← hexd] at hsh
+    rw [← hF, ← hexd] at hfnb
+    rw [← hU'] at hU1 hU2
+    rw [← hexd] at hex1 hex2
+    have hU : u * 2^k = U := hU'.symm
+    have hF1 : 8388608 ≤ F := by omega
+    have hF2 : F < 16777216 := by omega
+    clear hF hU' hexd
+    have hfs : FSide F U ex k := by
+      unfold FSide
+      rcases hsh with ⟨hR', e1, e2⟩ | ⟨hR', e1, e2⟩
+      · rcases decodeR _ U qf ex k 12 hU1 hU2 hqf1 hqf2 hk rfl hR' with ⟨hq, hx⟩ | ⟨hq, hUc, hx⟩
+        · subst hq; exact Or.inl ⟨hx, e1, e2⟩
+        · subst hq; exact Or.inr (Or.inl ⟨by omega, hUc, e1, e2⟩)
+      · rcases decodeR _ U qf ex k 13 hU1 hU2 hqf1 hqf2 hk rfl hR' with ⟨hq, hx⟩ | ⟨hq, hUc, hx⟩
+        · subst hq; exact Or.inr (Or.inr (Or.inl ⟨hx, e1, e2⟩))
+        · subst hq; exact Or.inr (Or.inr (Or.inr ⟨by omega, hUc, e1, e2⟩))
+    clear hsh hqf1 hqf2 hR hnb hRform hgnb hlt hZ
+    have c30 : (2:Nat)^30 = 1073741824 := by decide
+    have c23 : (2:Nat)^23 = 8388608 := by decide
+    by_cases h126 : u % 126 = 0
+    · -- 1-byte form
+      rw [if_pos h126]
+      obtain ⟨u', hu'⟩ : ∃ u', u = 126 * u' := ⟨u / 126, by omega⟩
+      have hu'0 : 0 < u' := by omega
+      have hdivu : u / 126 = u' := by omega
+      rw [hdivu]
+      obtain ⟨k', hk', hU1', hU2', _, _⟩ := ofInt_small (u' : Int) (by omega) (by omega)
+      simp only [Int.natAbs_natCast] at hU1' hU2'
+      have hlink := norm_126 u' k k' hu'0 (by rw [← hu', hU]; exact hU1) (by rw [← hu', hU]; exact hU2)
+        hU1' hU2'
+      rw [← hu', hU] at hlink
+      generalize hUp : u' * 2^k' = U' at *
+      -- bit length of the scaled quotient
+      have hX1 : 2^39 ≤ U' * 2^23 / 120 := by
+        rw [c23]; have : (2:Nat)^39 = 549755813888 := by decide
+        rw [this]; omega
+      have hX2 : U' * 2^23 / 120 < 2^41 := by
+        rw [c23]; have : (2:Nat)^41 = 2199023255552 := by decide
+        rw [this]; omega
+      obtain ⟨bl, hbl, hblc⟩ : ∃ bl, bitLen (U' * 2^23 / 120) = bl ∧ (bl = 40 ∨ bl = 41) := by
+        by_cases hlt40 : U' * 2^23 / 120 < 2^40
+        · exact ⟨40, bitLen_eq (k := 39) hX1 hlt40, Or.inl rfl⟩
+        · exact ⟨41, bitLen_eq (k := 40) (by omega) hX2, Or.inr rfl⟩
+      rw [← hUp] at hbl
+      obtain ⟨qd, hqd1, hqd2, hdnb, d1, d2⟩ := div_bits u' 120 k' 23 bl hu'0 (by omega) (by omega)
+        (by rw [hUp]; exact hU1') (by rw [hUp]; exact hU2') hk' (by rw [bitLen_120]) (by omega)
+        hbl (by omega) (by omega)
+      rw [hUp, c23] at d1 d2
+      have hres := core1 F U U' qd ex k k' f.nb _ bl hF1 hF2 hU1 hU2 hU1' hU2' hk hk' hqd1 hqd2 hfnb hfs
+        (by
+          rcases hlink with ⟨a, b⟩ | ⟨a, b⟩
+          · exact Or.inl ⟨a, b⟩
+          · exact Or.inr ⟨a, b⟩) hblc hdnb d1 d2
+      refine ⟨?_, hsf, hres.1, hres.2⟩
+      show (F32.ofInt (u' : Int) / F32.ofInt ((120 : Nat) : Int)).nb / 2147483648 = 0
+      rw [hdnb]; rcases hblc with rfl | rfl <;> omega
+    · -- 2-byte form
+      rw [if_neg h126]
+      have hX1 : 2^39 ≤ U * 2^30 / 15120 := by
+        rw [c30]; have : (2:Nat)^39 = 549755813888 := by decide
+        rw [this]; omega
+      have hX2 : U * 2^30 / 15120 < 2^41 := by
+        rw [c30]; have : (2:Nat)^41 = 2199023255552 := by decide
+        rw [this]; omega
+      obtain ⟨bl, hbl, hblc⟩ : ∃ bl, bitLen (U * 2^30 / 15120) = bl ∧ (bl = 40 ∨ bl = 41) := by
+        by_cases hlt40 : U * 2^30 / 15120 < 2^40
+        · exact ⟨40, bitLen_eq (k := 39) hX1 hlt40, Or.inl rfl⟩
+        · exact ⟨41, bitLen_eq (k := 40) (by omega) hX2, Or.inr rfl⟩
+      rw [← hU] at hbl
+      obtain ⟨qd, hqd1, hqd2, hdnb, d1, d2⟩ := div_bits u 15120 k 30 bl (by omega) (by omega) (by omega)
+        (by rw [hU]; exact hU1) (by rw [hU]; exact hU2) hk (by rw [bitLen_15120]) (by omega)
+        hbl (by omega) (by omega)
+      rw [hU, c30] at d1 d2
+      have hres := core2 F U qd ex k f.nb _ bl hF1 hF2 hU1 hU2 hk hqd1 hqd2 hfnb hfs hblc hdnb d1 d2
+      refine ⟨?_, hsf, hres.1, hres.2⟩
+      show (F32.ofInt (u : Int) / F32.ofInt ((15120 : Nat) : Int)).nb / 2147483648 = 0
+      rw [hdnb]; rcases hblc with rfl | rfl <;> omega
 
 end Ivg.Z2O
